@@ -21,7 +21,9 @@ PROP = dict(
          "4 max_diff values, and random streams (in/out of order, duplicates, times exactly on / just off multiples of the "
          "resolution, around the epoch on both sides, 1922, 2020, next to MinInt64 and MaxInt64, upstream watermarks, "
          "retractions, 1-3 columns, several time zones) x resolution in {1ns, 1us, 1s, 7s, 1h, 1d, a prime, random} x "
-         "max_diff (0, = res, random, negative, res/2+1, > 3 res); non-trivial = in-domain run with >= 2 records that "
+         "max_diff (0, = res, random, negative, res/2+1, > 3 res); ~8% as `fail <k> ...` (the source fails after k messages); "
+         "`schema <want> <noretr> <k> (<name> <type>)*` = OutputSchema + Materialize + one record revealing the column used at "
+         "run time: all field lists of length <= 3 over 2 names x {Time, Int, Null|Time} x 3 wanted names, plus random ones; non-trivial = in-domain run with >= 2 records that "
          "emitted a watermark",
     exhaustive=dict(quick=False, thorough=False),
     assumptions=["every record holds a Time value in the time field (enforced by the TVF's OutputSchema check) whose UnixNano "
